@@ -3,6 +3,7 @@ import H3Model.Proto
 import H3Model.EdgeVertex
 import H3Model.Compact
 import H3Model.Hex2d
+import H3Model.Poly
 
 namespace H3.Ops
 open H3 H3.Proto
@@ -182,6 +183,11 @@ def opsTrav (op : String) (a : List String) : Option String :=
     match latLngToCellArgs r la.isFinite ln.isFinite with
     | some e => pure ("err " ++ toString e.code)
     | none => pure "skip"
+  | "polyflags", [f] => do
+    let f ← f.toNat?
+    match validatePolygonFlags (BitVec.ofNat 32 f) with
+    | none => pure "ok"
+    | some e => pure ("err " ++ toString e.code)
   | "adisk", [failAt, from_, h, k, want] => do
     let failAt ← failAt.toNat?
     let h ← parseH h; let k ← parseInt k
